@@ -121,6 +121,9 @@ func evalC11(c c11Case) ([]c11Finding, error) {
 			// (1-q)*n above), neighbouring centroids overlap, and the estimate interpolates between their centres:
 			// rank errors of up to about 2.5 such widths occur, 3.5 are covered by the entry.
 			if need <= 1+3.5*math.Pi/100*math.Sqrt(p.q*(1-p.q))*float64(n) && vh.Known("tdigest-resolution") {
+				if w := (need - 1) / (math.Pi / 100 * math.Sqrt(p.q*(1-p.q)) * float64(n)); w > 2.8 {
+					vh.Note("C11 known finding tdigest-resolution: rank error of %.2f centroid widths (entry covers 3.5): %s", w, msg)
+				}
 				known = append(known, c11Finding{id: "tdigest-resolution", q: p.q, need: need, tau: tau, detail: msg})
 				continue
 			}
